@@ -1,0 +1,180 @@
+// Copyright 2021 TiKV Project Authors.
+//
+// Licensed under the Apache License, Version 2.0 (the "License");
+// you may not use this file except in compliance with the License.
+// You may obtain a copy of the License at
+//
+//     http://www.apache.org/licenses/LICENSE-2.0
+//
+// Unless required by applicable law or agreed to in writing, software
+// distributed under the License is distributed on an "AS IS" BASIS,
+// See the License for the specific language governing permissions and
+// limitations under the License.
+
+//go:build verif
+// +build verif
+
+// Machine-checked contracts for operators (checked by /verif/govc; comment-only file).
+package operator
+
+// The transition matrix is read from the package initialiser of the current source (it is written nowhere else).
+//@ constglobal github.com/tikv/pd/server/schedule/operator.validTrans init
+
+// created -> {started, cancelled, expired}; started -> {success, cancelled, replaced, timeout}; end states are final.
+//@ pure validStep(from int, to int) = (from == 0 && (to == 1 || to == 3 || to == 5)) || (from == 1 && (to == 2 || to == 3 || to == 4 || to == 6))
+
+//@ func (*OpStatusTracker).toLocked
+//@   props C09
+//@   requires trk.current < 7
+//@   ensures [valid] result ==> validStep(old(trk.current), dst) && trk.current == dst
+//@   ensures [complete] validStep(old(trk.current), dst) ==> result
+//@   ensures [rejected] !result ==> trk.current == old(trk.current)
+//@   modifies trk.current, trk.reachTimes, ghost evres
+
+//@ func (*OpStatusTracker).To
+//@   props C09
+//@   requires trk.current < 7
+//@   ensures [valid] result ==> validStep(old(trk.current), dst) && trk.current == dst
+//@   ensures [complete] validStep(old(trk.current), dst) ==> result
+//@   ensures [rejected] !result ==> trk.current == old(trk.current)
+//@   modifies trk.current, trk.reachTimes, ghost evres
+
+//@ func IsEndStatus
+//@   props C09
+//@   ensures result <==> (s == 2 || s == 3 || s == 4 || s == 5 || s == 6)
+//@   modifies nothing
+
+//@ func (*OpStatusTracker).CheckExpired
+//@   props C09
+//@   requires trk.current < 7
+//@   ensures [trans] trk.current == old(trk.current) || (old(trk.current) == 0 && trk.current == 5)
+//@   ensures [result] result <==> trk.current == 5
+//@   modifies trk.current, trk.reachTimes, ghost evres
+
+//@ func (*OpStatusTracker).CheckTimeout
+//@   props C09
+//@   requires trk.current < 7
+//@   ensures [trans] trk.current == old(trk.current) || (old(trk.current) == 1 && trk.current == 6)
+//@   ensures [result] result <==> trk.current == 6
+//@   modifies trk.current, trk.reachTimes, ghost evres
+
+// ---- per-step accounting of configuration changes (C09: stale-operator detection) ----
+// A step accounts for exactly the configuration changes it has itself already made visible in the region.
+
+//@ func (TransferLeader).ConfVerChanged
+//@   props C09
+//@   ensures result == 0
+//@   modifies nothing
+
+//@ func (AddPeer).ConfVerChanged
+//@   props C09
+//@   requires wfRegion(region)
+//@   ensures forall p *metapb.Peer :: firstOnStore(region.voters, ap.ToStore, p) ==> result == ite(pid(p) == ap.PeerID, 1, 0)
+//@   modifies nothing
+
+//@ func (AddLearner).ConfVerChanged
+//@   props C09
+//@   requires wfRegion(region)
+//@   ensures forall p *metapb.Peer :: firstOnStore(region.meta.Peers, al.ToStore, p) ==> result == ite(pid(p) == al.PeerID, 1, 0)
+//@   modifies nothing
+
+//@ func (PromoteLearner).ConfVerChanged
+//@   props C09
+//@   requires wfRegion(region)
+//@   ensures forall p *metapb.Peer :: firstOnStore(region.voters, pl.ToStore, p) ==> result == ite(pid(p) == pl.PeerID, 1, 0)
+//@   modifies nothing
+
+// RemovePeer: accounted iff no peer (of any role) is left on the store, or a different peer than the named one is there.
+//@ func (RemovePeer).ConfVerChanged
+//@   props C09
+//@   requires wfRegion(region)
+//@   ensures forall p *metapb.Peer :: firstOnStore(region.meta.Peers, rp.FromStore, p) ==> result == ite(pid(p) == 0 || (rp.PeerID != 0 && pid(p) != rp.PeerID), 1, 0)
+//@   modifies nothing
+
+//@ func (DemoteFollower).ConfVerChanged
+//@   props C09
+//@   requires wfRegion(region)
+//@   ensures forall p *metapb.Peer :: firstOnStore(region.learners, df.ToStore, p) ==> result == ite(pid(p) == df.PeerID, 1, 0)
+//@   modifies nothing
+
+//@ func (DemoteVoter).ConfVerChanged
+//@   props C09
+//@   requires wfRegion(region)
+//@   ensures forall p *metapb.Peer :: firstOnStore(region.learners, dv.ToStore, p) ==> (result <==> pid(p) == dv.PeerID)
+//@   modifies nothing
+
+//@ func (MergeRegion).ConfVerChanged
+//@   props C09
+//@   ensures result == 0
+//@   modifies nothing
+
+//@ func (SplitRegion).ConfVerChanged
+//@   props C09
+//@   ensures result == 0
+//@   modifies nothing
+
+// ---- step completion and safety of the single-peer steps ----
+//@ func (TransferLeader).IsFinish
+//@   props C09 C08
+//@   requires region != nil
+//@   ensures result <==> pstore(region.leader) == tl.ToStore
+//@   modifies nothing
+
+//@ func (TransferLeader).CheckSafety
+//@   props C09 C08
+//@   requires wfRegion(region)
+//@   ensures forall p *metapb.Peer :: firstOnStore(region.meta.Peers, tl.ToStore, p) ==> (result == nil <==> (p != nil && prole(p) != 1))
+//@   modifies nothing
+
+//@ func (RemovePeer).IsFinish
+//@   props C09 C08
+//@   requires wfRegion(region)
+//@   ensures forall p *metapb.Peer :: firstOnStore(region.meta.Peers, rp.FromStore, p) ==> (result <==> p == nil)
+//@   modifies nothing
+
+//@ func (RemovePeer).CheckSafety
+//@   props C09 C08
+//@   requires region != nil
+//@   ensures result == nil <==> rp.FromStore != pstore(region.leader)
+//@   modifies nothing
+
+//@ func (AddPeer).CheckSafety
+//@   props C09 C08
+//@   requires wfRegion(region)
+//@   ensures forall p *metapb.Peer :: firstOnStore(region.meta.Peers, ap.ToStore, p) ==> (result == nil <==> (p == nil || pid(p) == ap.PeerID))
+//@   modifies nothing
+
+//@ func (AddLearner).CheckSafety
+//@   props C09 C08
+//@   requires wfRegion(region)
+//@   ensures forall p *metapb.Peer :: firstOnStore(region.meta.Peers, al.ToStore, p) ==> (result == nil <==> (p == nil || (pid(p) == al.PeerID && prole(p) == 1)))
+//@   modifies nothing
+
+//@ func (PromoteLearner).CheckSafety
+//@   props C09 C08
+//@   requires wfRegion(region)
+//@   ensures forall p *metapb.Peer :: firstOnStore(region.meta.Peers, pl.ToStore, p) ==> (result == nil <==> pid(p) == pl.PeerID)
+//@   modifies nothing
+
+//@ func (DemoteFollower).CheckSafety
+//@   props C09 C08
+//@   requires wfRegion(region)
+//@   ensures forall p *metapb.Peer :: firstOnStore(region.meta.Peers, df.ToStore, p) ==> (result == nil <==> (pid(p) == df.PeerID && pid(p) != pid(region.leader)))
+//@   modifies nothing
+
+// ---- leaving the joint state ----
+// A promotion is accounted once the store's voter is the named peer with the plain Voter role; a demotion once
+// the store holds no peer any more or its learner is the named peer.
+//@ pure promotedV(region *core.RegionInfo, pl PromoteLearner) = forall p *metapb.Peer :: firstOnStore(region.voters, pl.ToStore, p) ==> pid(p) == pl.PeerID && prole(p) == 0
+//@ pure demotedV(region *core.RegionInfo, dv DemoteVoter) = (forall q *metapb.Peer :: firstOnStore(region.meta.Peers, dv.ToStore, q) ==> q == nil) || (forall p *metapb.Peer :: firstOnStore(region.learners, dv.ToStore, p) ==> pid(p) == dv.PeerID)
+
+//@ func (ChangePeerV2Leave).ConfVerChanged
+//@   props C09
+//@   requires wfRegion(region)
+//@   ensures [all-or-nothing] result == 0 || result == len(cpl.PromoteLearners) + len(cpl.DemoteVoters)
+//@   ensures [accounted-promote] result != 0 ==> forall k :: 0 <= k && k < len(cpl.PromoteLearners) ==> promotedV(region, cpl.PromoteLearners[k])
+//@   ensures [accounted-demote] result != 0 ==> forall k :: 0 <= k && k < len(cpl.DemoteVoters) ==> demotedV(region, cpl.DemoteVoters[k])
+//@   loop 1 invariant forall k :: 0 <= k && k <= rangeindex ==> promotedV(region, cpl.PromoteLearners[k])
+//@   loop 2 invariant forall k :: 0 <= k && k < len(cpl.PromoteLearners) ==> promotedV(region, cpl.PromoteLearners[k])
+//@   loop 2 invariant forall k :: 0 <= k && k <= rangeindex ==> demotedV(region, cpl.DemoteVoters[k])
+//@   modifies nothing
